@@ -1,0 +1,8 @@
+//go:build !js && !verif
+
+package websocket
+
+// simYield and simNote are scheduling points for the deterministic simulator
+// in the verification harness. Without the verif build tag they are empty.
+func simYield(point string, c *Conn) {}
+func simNote(point string, c *Conn)  {}
